@@ -229,6 +229,29 @@ class Fixture(object):
         self.undo_time()
 
 
+def fixture_of(cfg):
+    """the fixture class for a configuration: with `pool`, threads that do nothing but `while True: conn.serve(None)` - the loop
+    of Connection.serve_threaded()'s threads - share the connection with the clients"""
+    pool = tuple(cfg.get("pool", ()))
+    if not pool:
+        return Fixture
+
+    class PoolFixture(Fixture):
+        def __init__(self, *a, **k):
+            Fixture.__init__(self, *a, **k)
+            self.pool = {}
+            for name in pool:
+                self.pool[name] = self.sched.spawn(name, self._serve_only)
+
+        def _serve_only(self):
+            try:
+                while True:
+                    self.conn.serve(None)
+            except EOFError:
+                pass
+    return PoolFixture
+
+
 def thread_choices(s):
     """what managed threads can do now, without advancing the clock"""
     out = []
@@ -483,6 +506,10 @@ CONFIGS = {
     # requests whose names end in x fail on the peer (line-preemption exploration only)
     "2x": dict(reqs={"t1": ["a1x", "a2"], "t2": ["b1x"]}, bg=False),
     "2bgx": dict(reqs={"t1": ["a1x"], "t2": ["b1"]}, bg=True),
+    # serve_threaded(): threads that only serve, in a blocking loop, next to threads that issue requests
+    "2p": dict(reqs={"t1": ["a1"], "t2": ["b1"]}, bg=False, pool=("p1",)),
+    "1pp": dict(reqs={"t1": ["a1", "a2"]}, bg=False, pool=("p1", "p2")),
+    "2pp": dict(reqs={"t1": ["a1"], "t2": ["b1"]}, bg=False, pool=("p1", "p2")),
 }
 
 
@@ -491,8 +518,10 @@ def tla_consts(cfg, prefix="TV"):
     defs = ['%sClients == {%s}' % (prefix, ", ".join('"%s"' % t for t in th))]
     cases = ['t = "%s" -> <<%s>>' % (t, ", ".join('"%s"' % r for r in cfg["reqs"][t])) for t in th]
     defs.append('%sReqs == [t \\in %sClients |-> CASE %s]' % (prefix, prefix, " [] ".join(cases)))
+    pool = sorted(cfg.get("pool", ()))
+    defs.append('%sPool == {%s}' % (prefix, ", ".join('"%s"' % t for t in pool)))
     lines = ["Clients <- %sClients" % prefix, "Reqs <- %sReqs" % prefix, 'Bg = "%s"' % ("bg" if cfg["bg"] else "none"),
-             "Handoff = %s" % ("TRUE" if handoff_repaired() else "FALSE")]
+             "Pool <- %sPool" % prefix, "Handoff = %s" % ("TRUE" if handoff_repaired() else "FALSE")]
     return "\n".join(defs), lines
 
 
@@ -606,7 +635,7 @@ def explore_line_preemptions(chk, cfgname, on_result, max_points=None, callbacks
     cfg = (configs or CONFIGS)[cfgname]
     seen = set()
     ch = line_preempt_chooser(("", -1), 1, seen)
-    res = run_impl(cfg["reqs"], cfg["bg"], ch, lines=True, callbacks=callbacks, fixture=fixture)
+    res = run_impl(cfg["reqs"], cfg["bg"], ch, lines=True, callbacks=callbacks, fixture=fixture or fixture_of(cfg))
     on_result(res, cfg, {"mode": "indices", "config": cfgname, "lines": True, "indices": ch.record, "callbacks": callbacks})
     # a second discovery run with random switching sees the lines of paths the straight run does not take
     rr = random_chooser(random.Random(chk.seed + 5), 0.5)
@@ -619,7 +648,7 @@ def explore_line_preemptions(chk, cfgname, on_result, max_points=None, callbacks
                 seen2.add(tuple(o.info))
         return rr(choices, s)
     spy.record = rr.record
-    res = run_impl(cfg["reqs"], cfg["bg"], spy, lines=True, callbacks=callbacks, fixture=fixture)
+    res = run_impl(cfg["reqs"], cfg["bg"], spy, lines=True, callbacks=callbacks, fixture=fixture or fixture_of(cfg))
     on_result(res, cfg, {"mode": "indices", "config": cfgname, "lines": True, "indices": rr.record, "callbacks": callbacks})
     points = sorted(seen | seen2)
     if max_points is not None and len(points) > max_points:
@@ -629,7 +658,7 @@ def explore_line_preemptions(chk, cfgname, on_result, max_points=None, callbacks
     for pt in points:
         for occ in (1, 2, 3):
             ch = line_preempt_chooser(pt, occ)
-            res = run_impl(cfg["reqs"], cfg["bg"], ch, lines=True, callbacks=callbacks, fixture=fixture)
+            res = run_impl(cfg["reqs"], cfg["bg"], ch, lines=True, callbacks=callbacks, fixture=fixture or fixture_of(cfg))
             on_result(res, cfg, {"mode": "indices", "config": cfgname, "lines": True, "indices": ch.record, "callbacks": callbacks})
             n += 1
             if n % 100 == 0:
@@ -699,7 +728,7 @@ def replay_graph(chk, cfgname, max_paths, on_problem):
         paths = paths[:max_paths]
     covered = set()
     for pi, path in enumerate(paths):
-        fx = Fixture(cfg["reqs"], cfg["bg"])
+        fx = fixture_of(cfg)(cfg["reqs"], cfg["bg"])
         s = fx.sched
         bg_budget = [40]
         try:
@@ -857,14 +886,14 @@ def explore(chk, cfgname, n_random, dfs_runs, dfs_bound, lines, on_result):
             ch = pct_chooser(random.Random(rnd.random()), depth=rnd.choice([1, 2, 3]), horizon=rnd.choice([60, 150, 400]))
         else:
             ch = random_chooser(random.Random(rnd.random()), rnd.choice([0.0, 0.5, 0.85, 0.97]))
-        res = run_impl(cfg["reqs"], cfg["bg"], ch, lines=lines)
+        res = run_impl(cfg["reqs"], cfg["bg"], ch, lines=lines, fixture=fixture_of(cfg))
         on_result(res, cfg, {"mode": "indices", "config": cfgname, "lines": lines, "indices": ch.record})
         traces.append(res["trace"])
         n += 1
         if n % 100 == 0:
             gc.collect()
     if dfs_runs:
-        for k, ch, res in dfs(lambda c: run_impl(cfg["reqs"], cfg["bg"], c), dfs_runs, dfs_bound):
+        for k, ch, res in dfs(lambda c: run_impl(cfg["reqs"], cfg["bg"], c, fixture=fixture_of(cfg)), dfs_runs, dfs_bound):
             on_result(res, cfg, {"mode": "indices", "config": cfgname, "lines": False, "indices": ch.record})
             traces.append(res["trace"])
             n += 1
